@@ -29,6 +29,9 @@ type shape struct {
 	name  string
 	spec  string
 	flags map[string]bool
+	// ignoreNI: generated with `ignore_not_implemented: [all]` (operations that need something
+	// ogen does not implement are skipped; what is written must still compile)
+	ignoreNI bool
 }
 
 func fl(on ...string) map[string]bool {
@@ -40,11 +43,122 @@ func fl(on ...string) map[string]bool {
 }
 
 var shapes = []shape{
+	{"recursive_types", `openapi: 3.0.3
+info: {title: t, version: "1"}
+paths:
+  /branch:
+    post:
+      operationId: postBranch
+      requestBody: {required: true, content: {application/json: {schema: {$ref: "#/components/schemas/Branch"}}}}
+      responses:
+        "200": {description: ok, content: {application/json: {schema: {$ref: "#/components/schemas/Branch"}}}}
+  /others:
+    get:
+      operationId: getOthers
+      responses:
+        "200": {description: ok, content: {application/json: {schema: {$ref: "#/components/schemas/Holder"}}}}
+components:
+  schemas:
+    # a cycle through a sum held by value, entered at the struct (not at the sum)
+    Branch: {type: object, required: [label], properties: {label: {type: string}, child: {$ref: "#/components/schemas/Tree"}}}
+    Leaf: {type: object, required: [value], properties: {value: {type: integer}}}
+    Tree:
+      oneOf:
+        - {$ref: "#/components/schemas/Leaf"}
+        - {$ref: "#/components/schemas/Branch"}
+    Holder:
+      type: object
+      properties:
+        viaArray: {$ref: "#/components/schemas/ListNode"}
+        viaMap: {$ref: "#/components/schemas/MapNode"}
+        viaNullable: {$ref: "#/components/schemas/NullNode"}
+        viaAllOf: {$ref: "#/components/schemas/AllNode"}
+        viaAnyOf: {$ref: "#/components/schemas/AnyNode"}
+        mutual: {$ref: "#/components/schemas/Ping"}
+    ListNode: {type: object, properties: {items: {type: array, items: {$ref: "#/components/schemas/ListNode"}}}}
+    MapNode: {type: object, properties: {name: {type: string}}, additionalProperties: {$ref: "#/components/schemas/MapNode"}}
+    NullNode: {type: object, required: [next], properties: {id: {type: integer}, next: {nullable: true, allOf: [{$ref: "#/components/schemas/NullNode"}]}}}
+    AllNode: {allOf: [{type: object, properties: {a: {type: string}}}, {type: object, properties: {more: {$ref: "#/components/schemas/AllNode"}}}]}
+    AnyNode: {type: object, required: [k], properties: {k: {type: string}, alt: {$ref: "#/components/schemas/AnyAlt"}}}
+    AnyAlt:
+      anyOf:
+        - {type: string}
+        - {$ref: "#/components/schemas/AnyNode"}
+    Ping: {type: object, properties: {pong: {$ref: "#/components/schemas/Pong"}}}
+    Pong: {type: object, required: [n], properties: {n: {type: integer}, ping: {$ref: "#/components/schemas/Ping"}}}
+`, fl("ops", "json"), false},
+	{"skipped_operations", `openapi: 3.0.3
+info: {title: t, version: "1"}
+components:
+  securitySchemes:
+    key: {type: apiKey, in: header, name: X-Key}
+    be: {type: http, scheme: bearer}
+  schemas:
+    Only: {type: object, properties: {a: {type: string}, m: {type: object, additionalProperties: {type: integer}}}}
+    Shared: {type: object, required: [id], properties: {id: {type: integer, minimum: 1}, o: {$ref: "#/components/schemas/Only"}}}
+  responses:
+    Err: {description: e, headers: {X-E: {schema: {type: string}}}, content: {application/json: {schema: {$ref: "#/components/schemas/Shared"}}}}
+  parameters:
+    P: {name: p, in: query, schema: {type: string, enum: [x, z]}}
+paths:
+  /a:
+    post:
+      operationId: aXmlBody
+      security: [{key: []}]
+      parameters: [{$ref: "#/components/parameters/P"}]
+      requestBody: {required: true, content: {application/xml: {schema: {$ref: "#/components/schemas/Only"}}}}
+      responses: {"200": {description: ok, content: {application/json: {schema: {$ref: "#/components/schemas/Only"}}}}, "400": {$ref: "#/components/responses/Err"}}
+  /b:
+    get:
+      operationId: bOk
+      security: [{key: []}, {be: []}]
+      parameters: [{$ref: "#/components/parameters/P"}]
+      responses: {"200": {description: ok, content: {application/json: {schema: {$ref: "#/components/schemas/Shared"}}}}, "400": {$ref: "#/components/responses/Err"}}
+  /c:
+    get:
+      operationId: cXmlResponse
+      security: [{be: []}]
+      responses: {"200": {description: ok, content: {application/xml: {schema: {type: string}}}}, "400": {$ref: "#/components/responses/Err"}}
+  /d:
+    get:
+      operationId: dOk
+      security: [{be: []}]
+      responses: {"200": {description: ok}, "400": {$ref: "#/components/responses/Err"}}
+  /e:
+    post:
+      operationId: eXmlBodyLast
+      security: [{key: [], be: []}]
+      requestBody: {required: true, content: {application/xml: {schema: {$ref: "#/components/schemas/Shared"}}}}
+      responses: {"204": {description: none}}
+`, fl("ops", "params", "json", "securities", "validators", "interfaces"), true},
+	{"maps_of_collections", `openapi: 3.0.3
+info: {title: t, version: "1"}
+paths:
+  /a:
+    post:
+      operationId: postA
+      requestBody: {required: true, content: {application/json: {schema: {$ref: "#/components/schemas/M"}}}}
+      responses:
+        "200": {description: ok, content: {application/json: {schema: {$ref: "#/components/schemas/M"}}}}
+components:
+  schemas:
+    M:
+      type: object
+      properties:
+        tags: {type: object, additionalProperties: {type: array, items: {type: string}}}
+        grid: {type: object, additionalProperties: {type: array, items: {type: array, items: {type: integer}}}}
+        nest: {type: object, additionalProperties: {type: object, additionalProperties: {type: array, items: {type: number}}}}
+        pat: {type: object, patternProperties: {"^x-": {type: array, items: {type: string}}}}
+        both: {type: object, properties: {k: {type: string}}, additionalProperties: {type: array, items: {type: boolean}}}
+        nul: {type: object, additionalProperties: {type: array, nullable: true, items: {type: string, nullable: true}}}
+        objs: {type: array, items: {type: object, additionalProperties: {type: array, minItems: 1, items: {type: string, minLength: 1}}}}
+        sums: {type: object, additionalProperties: {oneOf: [{type: string}, {type: array, items: {type: integer}}]}}
+`, fl("ops", "json", "validators"), false},
 	{"minimal", `openapi: 3.0.3
 info: {title: t, version: "1"}
 paths:
   /a: {get: {operationId: getA, responses: {"200": {description: ok}}}}
-`, fl("ops")},
+`, fl("ops"), false},
 	{"params", `openapi: 3.0.3
 info: {title: t, version: "1"}
 servers:
@@ -66,7 +180,7 @@ paths:
         - {name: en, in: query, schema: {type: string, enum: [a, b, "c d"]}}
       responses:
         "200": {description: ok}
-`, fl("ops", "params", "uriobj", "validators")},
+`, fl("ops", "params", "uriobj", "validators"), false},
 	{"bodies", `openapi: 3.0.3
 info: {title: s, version: "1"}
 paths:
@@ -100,11 +214,14 @@ components:
       oneOf:
         - {$ref: "#/components/schemas/V"}
         - {$ref: "#/components/schemas/W"}
+    X:
+      oneOf:
         - {type: string}
         - {type: array, items: {type: integer}}
+        - {type: boolean}
     V: {type: object, required: [v], properties: {v: {type: string, pattern: "^a+$"}, zz: {type: number, multipleOf: 0.5}, aa: {type: string, enum: [q, p, r]}, d: {type: string, default: x}, n: {type: integer, nullable: true}}}
-    W: {type: object, required: [w], properties: {w: {type: integer}, m: {type: object, additionalProperties: {type: string}}, n: {$ref: "#/components/schemas/W"}, any: {}, arr: {type: array, minItems: 1, uniqueItems: true, items: {type: string}}}}
-`, fl("ops", "json", "interfaces", "validators", "defaults")},
+    W: {type: object, required: [w], properties: {w: {type: integer}, m: {type: object, additionalProperties: {type: string}}, n: {$ref: "#/components/schemas/W"}, x: {$ref: "#/components/schemas/X"}, any: {}, arr: {type: array, minItems: 1, uniqueItems: true, items: {type: string}}}}
+`, fl("ops", "json", "interfaces", "validators", "defaults"), false},
 	{"security", `openapi: 3.0.3
 info: {title: t, version: "1"}
 security: [{key: []}]
@@ -121,7 +238,7 @@ paths:
   /b: {get: {operationId: getB, security: [{qk: [], ck: []}, {ba: []}], responses: {"200": {description: ok}}}}
   /c: {get: {operationId: getC, security: [{be: []}, {oa: [read, write]}, {}], responses: {"200": {description: ok}}}}
   /d: {get: {operationId: getD, security: [], responses: {"200": {description: ok}}}}
-`, fl("ops", "securities")},
+`, fl("ops", "securities"), false},
 	{"webhooks", `openapi: 3.1.0
 info: {title: t, version: "1"}
 paths:
@@ -133,7 +250,7 @@ webhooks:
       parameters: [{name: X-Sig, in: header, required: true, schema: {type: string}}]
       requestBody: {required: true, content: {application/json: {schema: {type: object, required: [id], properties: {id: {type: string}, n: {type: integer, maximum: 5}}}}}}
       responses: {"200": {description: ok}, "4XX": {description: e, content: {application/json: {schema: {type: string}}}}}
-`, fl("ops", "webhooks", "params", "json", "validators", "interfaces")},
+`, fl("ops", "webhooks", "params", "json", "validators", "interfaces"), false},
 	{"convenient_security", `openapi: 3.0.3
 info: {title: t, version: "1"}
 security: [{key: []}]
@@ -156,7 +273,7 @@ paths:
       responses:
         "204": {description: none}
         default: {description: e, content: {application/json: {schema: {$ref: "#/components/schemas/Error"}}}}
-`, fl("ops", "params", "json", "securities")},
+`, fl("ops", "params", "json", "securities"), false},
 	{"shared_responses", `openapi: 3.0.3
 info: {title: t, version: "1"}
 paths:
@@ -179,7 +296,7 @@ components:
   responses:
     Denied: {description: denied}
     Problem: {description: problem, content: {application/json: {schema: {type: object, properties: {title: {type: string}}}}}}
-`, fl("ops", "json", "interfaces")},
+`, fl("ops", "json", "interfaces"), false},
 	{"webhook_security", `openapi: 3.1.0
 info: {title: t, version: "1"}
 components:
@@ -193,7 +310,7 @@ webhooks:
       security: [{be: []}]
       requestBody: {required: true, content: {application/json: {schema: {type: object, properties: {id: {type: string}}}}}}
       responses: {"200": {description: ok}}
-`, fl("ops", "webhooks", "json", "securities")},
+`, fl("ops", "webhooks", "json", "securities"), false},
 	{"pattern_responses_same_schema", `openapi: 3.0.3
 info: {title: t, version: "1"}
 paths:
@@ -207,7 +324,7 @@ paths:
 components:
   schemas:
     Error: {type: object, required: [message], properties: {message: {type: string}}}
-`, fl("ops", "json", "interfaces")},
+`, fl("ops", "json", "interfaces"), false},
 	{"recursive_optional_nullable", `openapi: 3.0.3
 info: {title: t, version: "1"}
 paths:
@@ -224,7 +341,7 @@ components:
       properties:
         id: {type: integer}
         next: {nullable: true, allOf: [{$ref: "#/components/schemas/Node"}]}
-`, fl("ops", "json")},
+`, fl("ops", "json"), false},
 	{"default_not_representable", `openapi: 3.0.3
 info: {title: t, version: "1"}
 paths:
@@ -241,7 +358,7 @@ components:
       type: object
       properties:
         n: {type: integer, format: int32, default: 3000000000}
-`, fl("ops", "params", "json", "defaults")},
+`, fl("ops", "params", "json", "defaults"), false},
 	{"form_empty_object", `openapi: 3.0.3
 info: {title: t, version: "1"}
 paths:
@@ -250,7 +367,7 @@ paths:
       operationId: postA
       requestBody: {required: true, content: {application/x-www-form-urlencoded: {schema: {type: object}}}}
       responses: {"200": {description: ok}}
-`, fl("ops")},
+`, fl("ops"), false},
 	{"enum_constant_vs_schema", `openapi: 3.0.3
 info: {title: t, version: "1"}
 paths:
@@ -264,7 +381,7 @@ components:
     Color: {type: string, enum: [red, green]}
     ColorRed: {type: object, properties: {x: {type: integer}}}
     Obj: {type: object, properties: {c: {$ref: "#/components/schemas/Color"}, r: {$ref: "#/components/schemas/ColorRed"}}}
-`, fl("ops", "json", "validators")},
+`, fl("ops", "json", "validators"), false},
 	{"getter_vs_property", `openapi: 3.0.3
 info: {title: t, version: "1"}
 paths:
@@ -276,7 +393,7 @@ paths:
 components:
   schemas:
     Obj: {type: object, properties: {foo: {type: string}, get_foo: {type: string}}}
-`, fl("ops", "json")},
+`, fl("ops", "json"), false},
 	{"validate_property", `openapi: 3.0.3
 info: {title: t, version: "1"}
 paths:
@@ -288,7 +405,7 @@ paths:
 components:
   schemas:
     Obj: {type: object, properties: {validate: {type: string, minLength: 3}}}
-`, fl("ops", "json", "validators")},
+`, fl("ops", "json", "validators"), false},
 	{"webhooks_only", `openapi: 3.1.0
 info: {title: t, version: "1"}
 webhooks:
@@ -297,7 +414,7 @@ webhooks:
       operationId: onEv
       requestBody: {required: true, content: {application/json: {schema: {type: object, properties: {id: {type: string}}}}}}
       responses: {"200": {description: ok}}
-`, fl("webhooks", "json")},
+`, fl("webhooks", "json"), false},
 }
 
 // ---- hostile names ----------------------------------------------------------------
@@ -590,6 +707,9 @@ func Check(r *core.Run) error {
 				fs[n] = struct{}{}
 			}
 			opts.Generator.Features = &gen.FeatureOptions{DisableAll: true, Enable: fs}
+			if c.shape != nil && c.shape.ignoreNI {
+				opts.Generator.IgnoreNotImplemented = []string{"all"}
+			}
 			g, err := mod.Generate(c.pkg, c.spec, opts)
 			c.gen = classify(err)
 			if err != nil {
@@ -669,6 +789,15 @@ func Check(r *core.Run) error {
 		cases = append(cases, again...)
 	}
 	nOK := 0
+	refusedShapes := map[string]string{}
+	for _, c := range cases {
+		if c.shape != nil && c.gen != "ok" {
+			refusedShapes[c.shape.name+": "+c.gen] = c.err
+		}
+	}
+	// every fixed shape is a document the generator takes at the recorded tree: a refusal of one
+	// is reported in the evidence (a shape that stops being generated exercises nothing)
+	r.Cov("shapes_refused_by_generator", refusedShapes)
 	for _, c := range cases {
 		c.build = "na"
 		if c.gen == "ok" {
